@@ -1,7 +1,7 @@
 From Coq Require Import List NArith ZArith Bool.
 From SK Require Import lib.LGraph lib.Mono.
 From SK Require model.C06_Model model.C11_Model.
-From SK Require Import model.C03_Model model.C05_Model proof.C05_Proof proof.C05_Glue proof.C05_Pipe proof.C05_Prep proof.C05_Comp proof.C05_Main proof.C05_Order proof.C05_Sub proof.C05_Set proof.C05_Result proof.C05_AllStrat proof.C05_PrepOrder proof.C05_Final proof.C05_Thms.
+From SK Require Import model.C03_Model model.C05_Model proof.C05_Proof proof.C05_Glue proof.C05_Pipe proof.C05_Prep proof.C05_Comp proof.C05_Main proof.C05_Order proof.C05_Sub proof.C05_Set proof.C05_Result proof.C05_AllStrat proof.C05_PrepOrder proof.C05_Final proof.C05_Default proof.C05_Thms.
 From SK Require Import lib.C06_Spec proof.C06_Comp.
 From SK Require proof.C11_Dedup.
 From Coq Require Import Permutation.
@@ -286,3 +286,32 @@ Theorem C05_strategy_subset_results :
     (forall T, In T (glued_of 2%N host p) -> exists T', In T' (glued_of 0%N host p) /\ obs_eq T T').
 Proof. exact thm_strategy_subset_results. Qed.
 Print Assumptions C05_strategy_subset_results.
+
+(** 10. The DEFAULT configuration (SynReactor(substrate, template): explicit_h=True, implicit_temp=False), both directions,
+    every strategy, for templates WITHOUT hydrogen atoms ([noHb]: no node has element H on either side): rule preparation
+    (standardize_hydrogen, its_decompose, _strip_explicit_h, typesGH refresh) is then the pointwise function
+    [prep_default] of the template (hydrogen counts reset, empty h_pairs), the pattern has no explicit X-H bond, and the
+    _explicit_h stage leaves every glued graph as it is (no hydrogen pair, no migration) — so [pipeline] with the
+    _explicit_h stage switched on is the list of glued graphs, and the set-level invariance of section 8 holds from the
+    TEMPLATE to its_list: substrate and template renumbered and re-ordered, the two result sets correspond one to one.
+    (Templates that write hydrogen changes with explicit H atoms: pair ids and fresh hydrogen ids are allocated in numeric
+    order — compared with the implementation on every run, not covered here.) *)
+Theorem C05_pipeline_set_invariant_default :
+  forall (strat : N), strat = 0%N \/ strat = 1%N \/ strat = 2%N ->
+  forall (sg pi : N -> N) (inv : bool) (host host'' : hostg) (tpl tpl'' : its),
+    inj sg -> inj pi ->
+    (* both writings of the template: distinct ids, simple edge list, no hydrogen atom on either side, no h_pairs *)
+    nodupb (node_ids tpl) = true -> noHb tpl = true ->
+    (forall k a, In (k, a) (gnodes tpl) -> i_hp a = None \/ i_hp a = Some []) -> simple_edgesb (gedges tpl) = true ->
+    nodupb (node_ids tpl'') = true -> noHb tpl'' = true ->
+    (forall k a, In (k, a) (gnodes tpl'') -> i_hp a = None \/ i_hp a = Some []) -> simple_edgesb (gedges tpl'') = true ->
+    same_graph (relabel pi host) host'' -> same_graph (relabel sg tpl) tpl'' ->
+    pipeline inv false true strat host tpl = Some (glued_of strat host (prep_default inv tpl)) /\
+    pipeline inv false true strat host'' tpl'' = Some (glued_of strat host'' (prep_default inv tpl'')) /\
+    (side_okb_c (relabel pi host) (relabel_prep sg (prep_default inv tpl)) = true -> side_okb_c host'' (prep_default inv tpl'') = true ->
+     (forall T, In T (glued_of strat host (prep_default inv tpl)) ->
+        exists T'', In T'' (glued_of strat host'' (prep_default inv tpl'')) /\ obs_eq (relabel pi T) T'') /\
+     (forall T'', In T'' (glued_of strat host'' (prep_default inv tpl'')) ->
+        exists T, In T (glued_of strat host (prep_default inv tpl)) /\ obs_eq (relabel pi T) T'')).
+Proof. exact thm_pipeline_set_invariant_default. Qed.
+Print Assumptions C05_pipeline_set_invariant_default.
